@@ -17,6 +17,12 @@ CHECKS = {
    text="Design level: TLC explores every allocator history of <=5 operations over a small address space (disjointness, alignment) and the transcription of get_alignment_offset on its whole small domain. Conformance: seeded random histories against the real aligned_allocator (one process per history, sizes incl. overflow and near SIZE_MAX, alignments 8..4096) replayed through Alloc.tla's actions with HeapInv as a TLC invariant; is_aligned/get_alignment_offset/max_size/operator== on exhaustive small domains."),
  "C20": dict(level="model_checking", ref="6 C20", tech="TLC evaluation of the Geometry invariants on the specification's table and on the complete table dumped from the real headers per build flavour",
    text="The space (architecture x element type x lane count) is finite and dumped completely from the real headers (C++17, C++11, emulated; thorough adds AVX2-only, SSE2-only, clang); TLC checks every record against Geometry.tla (size*sizeof = register width, bool/complex lane counts, alignment, inheritance chain vs best-first order, arch_list alignment, make_sized_batch, traits)."),
+ "C02": dict(level="exploration", ref="6 C02", tech="TLA+ IEEE-754 semantics (exact dyadic arithmetic + RNE, model-checked on a mini-format against a declarative definition) + TLC trace validation of recorded xsimd results on all ISAs",
+   text="IEEE.tla is checked by TLC on every operand pair/triple of an 8-bit mini-format against a declarative nearest-value definition; traces of add/sub/mul/div/sqrt/fma family/min/max/sign ops/bit ops/classification/frexp/ldexp/nextafter for float and double from 22 architectures + scalar overloads (special-value lattice^2, class lattice, random, cancellation and fused-vs-unfused-sensitive operands) are judged lane by lane in TLC. float32 unary domain is not enumerated exhaustively (class lattice + random), hence exploration."),
+ "C06": dict(level="exploration", ref="6 C06", tech="TLA+ conversion semantics (IntToFloat RNE, FloatToIntTrunc, sign/zero extension, FloatToFloat) + TLC trace validation of all (From,To) conversions and bitwise_cast round trips on all ISAs",
+   text="All 100 element type pairs x batch_cast/load_as/store_as/broadcast_as/bitwise_cast(+round trip) on 22 architectures, sources around 2^24, 2^31, 2^32, 2^52, 2^53, 2^63 +-3, int->float halfway cases, halves, every float class, random; each converted element judged in TLC. 32-bit sources by lattice + random, not exhaustively."),
+ "C08": dict(level="exploration", ref="6 C08", tech="TLC refinement check of the generic rounding constructions on mini-floats (K_RoundGeneric) + TLC trace validation of ceil/floor/trunc/round/nearbyint/rint/nearbyint_as_int/to_int on all ISAs",
+   text="K_RoundGeneric: TLC checks that xsimd's conversion-based trunc, ceil/floor correction, round-via-ceil and add-and-subtract nearbyint equal IEEE RoundInt on EVERY datum of two 8-bit formats. Conformance: per-binade k, k+-ulp, k+1/2(+-ulp), thresholds 2^22..2^24, 2^51..2^53, 2^31, 2^63, 0.49999997, specials and random bit patterns on 22 architectures, judged by IEEE.RoundInt/FloatToIntNear in TLC (zero results compared as numbers)."),
 }
 NOT_YET = {}
 props = [json.loads(l) for l in open(os.path.join(V, "properties.jsonl"))]
